@@ -47,7 +47,10 @@ out += ["", f"Totals: {len(rows)} seeded changes; {n_c} caught, {n_m} missed, {n
         "accessors name (C03 combination key, C12 persisted counter-move table): the check then exits 2 with 'harness does not compile against this tree' - inconclusive, "
         "never a pass. **What the seeds changed in the machinery:** three rounds of strengthening came directly from misses - native replays call `init()`; the C14 replay "
         "searches GUI-sized clocks; C19 gained `new(0)`; C17 and C13 gained command-level harnesses on the real `Uci::execute` (single command, then two-command sequences, "
-        "then bounded unwinding after a seeded loop made CBMC unroll forever); C16 gained the composition lemma with a native witness search.", ""]
+        "then bounded unwinding after a seeded loop made CBMC unroll forever); C16 gained the composition lemma with a native witness search.", "",
+        "**Property-preserving changes** tried against the newest harnesses are kept in `seeded/_benign/` (README there): a repaired version of the seeded position-command "
+        "optimisation verifies (7/7, exit 0); a new colour-symmetric evaluation term first produced a false VIOLATION from `c16_compose` - corrected (section 5), now exit 2 "
+        "with a non-reproducing counterexample and no violation claimed.", ""]
 text = "\n".join(out)
 d = (V / "DESIGN.md").read_text()
 if "## 10. Seeded changes" in d:
